@@ -261,6 +261,20 @@ def fork_case(ctx, case):
         except BaseException as e:
             ctx.violation({'block': 'C', 'clause': 'add_soft_fork installs at a free code'}, f'code {code}: {e!r}')
             return
+        # count bytes 0..127 (the range both the NOPn form and the fork's own handler can spell) in both spellings (d<n> decimal, x<hh> hex)
+        # compile to the bytes the plain VM gives for NOPn
+        for cb in (0, 1, 9, 10, 11, 15, 16, 17, 99, 100, 127):
+            for sp in ('d%d' % cb, 'x%02x' % cb):
+                for nm in (name, aliases[0].lower()):
+                    n += 1
+                    try:
+                        got = P_.compile_script('true %s %s false' % (nm, sp))
+                    except BaseException as e:
+                        got = repr(e)
+                    want_b = b'\x01' + bytes([code, cb]) + b'\x00'
+                    if got != want_b:
+                        ctx.violation({'block': 'C', 'clause': 'both VMs compile to identical bytes', 'count': 'd' if sp[0] == 'd' else 'x'},
+                                      f'{nm} {sp}: {got if isinstance(got, str) else got.hex()} vs plain {want_b.hex()}')
         # reachable by name and aliases, identical bytes, decompiles with the new name and recompiles identically
         for cnt in (0, 1, 2):
             for nm in [name, name.lower()] + aliases + [a.lower() for a in aliases]:
